@@ -255,3 +255,67 @@ func VerifC11Fanout() {
 	}
 	vnd.Cover("C11.fan.end")
 }
+
+func init() { verifEntries["VerifC11Deep"] = VerifC11Deep }
+
+// VerifC11Deep: DEPTH nested keys a, aa, aaa, ... (each a prefix of the next, so
+// the path to the deepest key has DEPTH nodes), then symbolic deletes/inserts of
+// keys at chosen depths; old tree kept and re-checked.
+func VerifC11Deep() {
+	DEPTH := vnd.Param("DEPTH", 40)
+	N := vnd.Param("N", 1)
+	tree := New[uint64]()
+	model := &vnd.Map{}
+	txn := tree.Txn()
+	key := func(n int) []byte {
+		k := make([]byte, n)
+		for i := range k {
+			k[i] = 'a'
+		}
+		return k
+	}
+	for i := 1; i <= DEPTH; i++ {
+		txn.Insert(key(i), uint64(i))
+		model.Put(key(i), uint64(i))
+	}
+	tree = txn.CommitAndNotify()
+	base := keptTree{tree, model.Snapshot()}
+	depths := []int{1, 2, DEPTH / 2, 31, 32, 33, 34, DEPTH - 1, DEPTH}
+	useTxn := vnd.Bool("txn")
+	if useTxn {
+		txn = tree.Txn()
+	}
+	for i := 0; i < N; i++ {
+		dpt := depths[vnd.IntRange("depth", 0, len(depths)-1)]
+		if dpt < 1 || dpt > DEPTH {
+			vnd.Assume(false)
+		}
+		k := key(dpt)
+		if vnd.Bool("delete") {
+			var old uint64
+			var had bool
+			if useTxn {
+				old, had = txn.Delete(k)
+			} else {
+				old, had, tree = tree.Delete(k)
+			}
+			mo, mh := model.Del(k)
+			vnd.Assert(had == mh && (!mh || old == mo), "C11.deep.delete.result")
+		} else {
+			if useTxn {
+				txn.Insert(k, uint64(1000+i))
+			} else {
+				_, _, tree = tree.Insert(k, uint64(1000+i))
+			}
+			model.Put(k, uint64(1000+i))
+		}
+	}
+	if useTxn {
+		tree = txn.CommitAndNotify()
+	}
+	q := key(depths[vnd.IntRange("q", 0, len(depths)-1)])
+	checkOps(&tree, model, q, "C11.deep.final")
+	bt := base.tree
+	checkOps(&bt, base.snap, q, "C11.deep.base")
+	vnd.Cover("C11.deep.end")
+}
